@@ -3,7 +3,7 @@ import OpcuaModel.Model.SrvHandlers
   Text form of the server model's states, requests and outcomes for the line
   protocol of the C35 / C29 drivers (not part of any theorem).
 
-    state : S=<tok>:<act>:<queued>:<rsa>,…|-  U=<id>:<owner|->,…|-  I=<id>:<sub>,…|-  N=<nextItem>  V=<value>  E=<0|1>  A=<attrv>  D=<attrv>
+    state : S=<tok>:<act>:<queued>:<rsa>,…|-  U=<id>:<owner|->,…|-  I=<id>:<sub>,…|-  N=<nextItem>  L=<lastSub>  V=<value>  E=<0|1>  A=<attrv>  D=<attrv>
     req   : findservers | getendpoints | createsession <k> <sec> <rsa|nonrsa|unparsable> | activate <sec> <sigok>
             | close | read | write <v> | writeattr <Access|DataType> <attrv> | browse <plain|loop> <0|1>
             | createsub <subms|small|huge> | publish | delsubs <ids|-> | createitems <sub> <n>
@@ -52,11 +52,12 @@ def parseState (toks : List String) : Option St := do
   let us ← (splitList (← field "U" toks)).mapM parseSub
   let is ← (splitList (← field "I" toks)).mapM parseItem
   let n ← (← field "N" toks).toNat?
+  let l ← (← field "L" toks).toNat?
   let v ← (← field "V" toks).toInt?
   let e ← parseBool (← field "E" toks)
   let a ← parseAttrV (← field "A" toks)
   let d ← parseAttrV (← field "D" toks)
-  pure { sessions := ss, subs := us, items := is, nextItem := n, value := v, endpointsEmpty := e, accessAttr := a, dataTypeAttr := d }
+  pure { sessions := ss, subs := us, items := is, nextItem := n, lastSub := l, value := v, endpointsEmpty := e, accessAttr := a, dataTypeAttr := d }
 
 def b01 (b : Bool) : String := if b then "1" else "0"
 
@@ -73,7 +74,7 @@ def showState (st : St) : String :=
   let ss := (sortBy (·.token) st.sessions).map fun s => s!"{s.token}:{b01 s.activated}:{s.queued}:{b01 s.certRsa}"
   let us := (sortBy (·.id) st.subs).map fun u => s!"{u.id}:{match u.owner with | some o => toString o | none => "-"}"
   let is := (sortBy (·.id) st.items).map fun i => s!"{i.id}:{i.sub}"
-  s!"S={orDash ss} U={orDash us} I={orDash is} N={st.nextItem} V={st.value} E={b01 st.endpointsEmpty} A={showAttrV st.accessAttr} D={showAttrV st.dataTypeAttr}"
+  s!"S={orDash ss} U={orDash us} I={orDash is} N={st.nextItem} L={st.lastSub} V={st.value} E={b01 st.endpointsEmpty} A={showAttrV st.accessAttr} D={showAttrV st.dataTypeAttr}"
 
 def parseReq : List String → Option Req
   | ["findservers"] => some .findServers
